@@ -10,8 +10,9 @@ from hv.core import Outcome, check_reads, lib
 ID = "C04"
 RULE = (
     "Hypothesis draws fixed and dynamic VHD specs (dynamic: block size 2^12..2^22, BAT = any allocated subset with a "
-    "physical placement permutation with gaps, dynamic header and BAT at any 512-aligned offsets in either order, virtual "
-    "size not necessarily a block multiple; fixed: payload with holes; both with the 512-byte or the legacy 511-byte "
+    "physical placement permutation with gaps, dynamic header and BAT at any 512-aligned offsets in either order or the BAT "
+    "behind the data blocks, virtual size not necessarily a block multiple; fixed: payload with holes, optionally starting "
+    "with a nested dynamic VHD's footer copy and header; both with the 512-byte or the legacy 511-byte "
     "footer, Original Size smaller / larger than Current Size or zero, the Temporary feature bit) plus requests biased to block/buffer boundaries and the tail; an independent writer produces image + model; "
     "VHD(fh).read and VHD(fh).disk.read_sectors must equal the model. Non-trivial = a request crosses a boundary between "
     "blocks that are not physically adjacent, or reads the partial last block, or block size != 2 MiB, or legacy footer."
@@ -48,7 +49,9 @@ def _vhd_spec(draw, tier="quick", layer=0, kind=None):
         size = 512 * draw(st.one_of(st.integers(1, 64), st.integers(1, 10000)))
         nch = (size + (1 << 20) - 1) >> 20
         holes = draw(st.lists(st.integers(0, nch - 1), max_size=2, unique=True))
-        return {"kind": "fixed", "size": size, "legacy_footer": legacy, "holes": holes, "layer": layer}
+        # guest data that itself starts with the footer copy and header of a dynamic VHD (a nested image at guest offset 0)
+        nested = size >= 4096 and 0 not in holes and draw(st.integers(0, 3)) == 0
+        return {"kind": "fixed", "size": size, "legacy_footer": legacy, "holes": holes, "layer": layer, "nested_head": nested}
     bits = draw(st.one_of(st.sampled_from([21, 21, 12, 13, 16, 20]), st.integers(12, 22)))
     bs = 1 << bits
     # large BATs (beyond any table/LRU cache granularity) are cheap: only a sparse set of blocks is described
@@ -86,6 +89,12 @@ def _vhd_spec(draw, tier="quick", layer=0, kind=None):
         base_sec = max(base_sec, min(hi, (1 << 32) - 2 - need))
     span = bvhd.bitmap_sectors(bs) + bs // 512
     pad = draw(st.sampled_from([0, 0, 1, 3]))
+    if not hi and draw(st.integers(0, 3)) == 0:
+        # the BAT behind the data blocks (a table that was relocated when the disk grew): blocks start right after the
+        # dynamic header, at sector numbers below the end of the table
+        dyn_off = 512 + gap1
+        base_sec = (dyn_off + 1024) // 512 + draw(st.sampled_from([0, 0, 1]))
+        tab_off = (base_sec + (max(slots, default=-1) + 1) * (span + pad)) * 512 + gap2
     return {
         "kind": "dynamic", "size": size, "legacy_footer": legacy, "block_size": bs, "dyn_offset": dyn_off, "table_offset": tab_off,
         "alloc": [[b, base_sec + s * (span + pad)] for b, s in zip(alloc_l, slots)], "layer": layer,
